@@ -7,6 +7,7 @@ COMMON_NOTE = ("Trusted: spec library /verif/spec (seccomp_data layout, cBPF sem
   "meta-theory axiom MT-3 (block composition); the contract of Program.Assemble (label resolution, property C06) is used, not re-proved, here; "
   "int is 64-bit, slice lengths < 2^56, label counters < 2^62; nativeEndian is one of the two byte orders.")
 TECH = "contract-based deductive verification: VCs generated from the Go AST of the real functions (contracts in //@ files), loop invariants, ghost cBPF interpreter state, lemmas; discharged by z3/cvc5"
+KNOTE = "Trusted: the kernel/runtime model of /verif/spec/kernel.spec (K-prctl, K-seccomp-filter incl. the refused-thread-sync return value and atomic TSYNC, K-seccomp-strict, R-sched: thread may change before any system call unless LockOSThread); x/net bpf.Assemble contract (one raw instruction per instruction, relation `encodes` uninterpreted); value model of pointers (the hand-over states the pointee of SockFprog.Filter equals sockFilter[0], not pointer identity); SYS_SECCOMP=317 / SYS_PRCTL=157 (linux/amd64 build context)."
 CLAIMED = {
  "C01": dict(
    text="Proof for all policies, all events (ghost event: every 32-bit nr, any args) and all architectures with tables (arch.Info symbolic): postcondition of Policy.Assemble 'run(result) = decisionRel(policy, event)' = action of the first matching group else default, errno encoded with EPERM; carried by contracts of SyscallGroup.assemble, toSyscallsWithConditions (names->numbers, any number of names), SyscallWithConditions.Assemble, Program.Ret/JmpIf/... with loop invariants over groups, names, lists; no bound on sizes.",
